@@ -58,6 +58,8 @@ class _ThreadShim:
             def start(self):
                 s = S.Sched.current
                 if s is not None:
+                    if s.me() is not None:
+                        s.yield_point("hist-thread-start")     # a thread object exists (and may be tracked) before it is started
                     self.actor = s.spawn(f"hist-{len(s.actors)}", lambda: target(*args, **(kwargs or {})))
                 else:
                     self.rt = real.Thread(target=target, args=args, kwargs=kwargs or {})
@@ -202,11 +204,11 @@ def run_scenario(kind, scratch, name, mode, seed):
                     pass
             s.spawn("recoverer", recoverer)
         s.spawn("r1", w.polling_runner("r1", 1, outs[1], rounds=rounds))
-        if name == "flush":
+        if name in ("flush", "kill"):             # a flush made while writers are still pending (single-runner and two-runner changes)
             def flusher():
                 # "once pending writes are flushed": the flush is called while writers are still pending (they run last / late);
                 # what get_history says right after it returns must already be complete
-                s.block_until(lambda: all(a.state == "done" for a in s.actors if a.name in ("r0", "r1")), "runners-done")
+                s.block_until(lambda: all(a.state == "done" for a in s.actors if a.name in ("r0", "r1", "killer", "recoverer")), "runners-done")
                 app.state_backend.wait_for_all_async_operations()
                 for i in ids:
                     flushed[i] = ([h.status_record.status.name for h in app.state_backend.get_history(i)],
